@@ -1,5 +1,10 @@
 """C12 — fields and forests keep their structural invariants.
 
+Extension round: operation histories on one Forest object (harness/props/c12_hist.py, Lean
+Model/C12B: state = parents + edges + children cache) and on one Field object
+(c12_fieldhist.py, Model/C12F), threshold_bifurcations / get_local_maxima / masked arg-max
+modelled (Model/C12F), WeightedForest (Model/C12W), signed constructor guard.
+
 Correspondence: Field.dilation (fast path = the *current text* of _graph.pyx run
 through the de-cythoniser, generic sparse-row path), erosion, opening, closing,
 compact_neighb, diffusion, highest_neighbor, custom_watershed, local_maxima and
@@ -18,6 +23,7 @@ import warnings
 import numpy as np
 
 from harness.core import PropertyCheck
+from harness.props import c12_fieldhist, c12_hist
 from harness.util import Snapshot, cmp_rats, errname, fr, frs, parse_rats, plist
 
 PYX = "nipy/algorithms/graph/_graph.pyx"
@@ -170,9 +176,10 @@ def gen_parents(rng, V):
         return p if rng.random() < 0.5 else [max(i - 1, 0) for i in range(V)]
     if r < 0.9:                       # arbitrary in-range array (cycles likely)
         return [rng.randrange(V) for _ in range(V)]
-    if r < 0.95:                      # value beyond V: refused by the constructor
-        p = [rng.randrange(V) for _ in range(V)]
-        p[rng.randrange(V)] = V + rng.choice([1, 2, 5])
+    if r < 0.96:                      # a value outside 0..V-1 (V itself, beyond, negative): to be refused
+        p = [rng.randrange(V) for _ in range(V)] if rng.random() < 0.5 else gen_parents(rng, V)
+        if len(p) == V:
+            p[rng.randrange(V)] = rng.choice([V, V, V + 1, V + 2, V + 5, -1, -1, -2, -V, -V - 1])
         return p
     return [rng.randrange(V) for _ in range(V + rng.choice([-1, 1, 2]))] or [0, 0]   # wrong size
 
@@ -180,46 +187,88 @@ def gen_parents(rng, V):
 def forest_extras(rng, V):
     return {"valid": [int(rng.random() < 0.65) for _ in range(V)],
             "prop": [int(rng.random() < 0.6) for _ in range(V)],
-            "label": [rng.choice([0, 1, 1, 2, 3]) for _ in range(V)]}
+            "label": [rng.choice([0, 1, 1, 2, 3]) for _ in range(V)],
+            # WeightedForest: heights (from the depth, halved depth = ties, or arbitrary), cut level, k
+            "hmode": rng.choice(["depth", "half", "raw", "raw", "const"]),
+            "hraw": [rng.choice([0.0, 0.5, 1.0, 1.5, 2.0, 3.0, -1.0]) for _ in range(V)],
+            "wth": rng.choice([0.0, 0.5, 1.0, 1.25, 2.0, 3.5, -2.0]),
+            "wk": rng.choice([-1, 0, 1, 2, 2, 3, 3, 4, 5, 8, 20])}
+
+
+def _is_forest(p):
+    V = len(p)
+    for v in range(V):
+        w = v
+        for _ in range(V):
+            w = p[w]
+        if p[w] != w:
+            return False
+    return True
 
 
 class C12(PropertyCheck):
     id = "C12"
     title = "Fields and forests keep their structural invariants"
-    lean_modules = ["NipyVerif.Props.C12"]
+    lean_modules = ["NipyVerif.Props.C12", "NipyVerif.Props.C12B", "NipyVerif.Props.C12F",
+                    "NipyVerif.Props.C12W"]
     driver = "Drivers/C12.lean"
-    rule = ("cases are (graph, field, operator arguments) or (parent array, sub-forest mask, property, "
-            "labels) drawn from a seeded PRNG plus exhaustive small domains (thorough: every parent array "
-            "on <= 6 nodes, every {0,1,2}-valued field on every symmetric graph on <= 4 vertices); "
-            "non-trivial = graph has an edge and the field is not constant, or the forest has a "
-            "non-root node / is refused; distinct by full JSON of the case")
+    rule = ("cases are (graph, field, operator arguments), (parent array, sub-forest mask, property, labels, "
+            "heights, cut level, k), operation HISTORIES on one Forest object (every public method, queries before "
+            "and after every in-place / continue-on-result call, oversized raw arguments materialised against the "
+            "object as it is when the step is reached) and on one Field object (in-place morphology, diffusion, "
+            "set_field with other dtypes/shapes, subfield/copy and continue, queries), drawn from a seeded PRNG "
+            "plus exhaustive small domains (thorough: every parent array on <= 6 nodes, each accepted one also "
+            "starting a short history; every {0,1,2}-valued field on every symmetric graph on <= 4 vertices); "
+            "parent arrays include entries equal to V, beyond V and negative; non-trivial = graph has an edge and "
+            "the field is not constant, or the forest has a non-root node / is refused, or a history has >= 3 calls; "
+            "distinct by full JSON of the case")
     assumptions = [
         "edge weights of morphological inputs are strictly positive (scipy's sparse addition drops "
         "entries that sum to zero; the model's sparse rows are the sets of column indices)",
-        "np.argsort (unstable under ties) is a parameter of reorder_from_leaves_to_roots: the order the "
-        "implementation returned is passed to the model, which validates it as a sort of the depths",
+        "np.argsort (unstable under ties) is a parameter of reorder_from_leaves_to_roots and of "
+        "threshold_bifurcations: the order NumPy returns on the same data is passed to the model, which "
+        "validates it as a sort of the depths / of the negated field",
         "field values and weights are dyadic so float arithmetic of diffusion is exact (compared at 1e-9)",
         "the compiled fast path is the current text of _graph.pyx executed by harness/decython.py "
         "(C int/double semantics emulated); the installed .so is a second witness only",
-        "threshold_bifurcations and leaves_of_a_subtree are not modelled in Lean: oracle only "
-        "(superlevel-set components) / not covered",
+        "Forest history model: get_descendants is sorted once (the code sorts at every recursion level: same list); "
+        "all_distances (Dijkstra on the unit-weight tree) and cc (lil_cc) are modelled through the child->parent map "
+        "the edge array encodes: path through the first common ancestor / components numbered by smallest vertex",
+        "Field histories: which dilation path runs (`fast and dtype == float64`) is observed on the object and passed "
+        "to the model (both paths are proved equal); constrained_voronoi, geodesic_kmeans, ward, "
+        "threshold_bifurcations, get_field, compact_neighb are frame-only steps of a history (the model says the "
+        "object is unchanged; their values are checked by oracle — geodesic labelling — or by their own line kinds)",
+        "WeightedForest.plot / plot_height (matplotlib drawing) are excluded; the agglomeration routines of "
+        "hierarchical_clustering.py (ward*, average_link*, fusion, _inertia*, _label*) belong to C14",
     ]
     level_note = ("proved for all inputs of the model: both dilation paths = closed-neighbourhood maximum and agree "
                   "(incl. the compact_neighb slices), erosion = closed-neighbourhood minimum, opening/closing "
-                  "order and idempotence for every nbiter on symmetric graphs, check <=> every vertex reaches a "
-                  "root within V steps, no cycles, children/leaf/root consistency, depth strict at any fixed point "
-                  "of the sweep, reordering conjugates the parent map, watershed labels exactly the vertices "
-                  "above threshold and basin roots are local maxima. Partial / by correspondence and oracle "
-                  "only: uniqueness of the maximum per basin and the cc numbering, local_maxima depth values, "
-                  "threshold_bifurcations, diffusion as a dense matrix power (one sparse application per "
-                  "iteration is proved), descendants, subforest renumbering, upward propagation, convergence "
-                  "of depth_from_leaves within V sweeps")
-    finding_keys = {}
+                  "order and idempotence for every nbiter on symmetric graphs; steepest ascent reaches a fixed point "
+                  "within V steps on every field (pigeonhole on a strict order), each basin has exactly one maximum "
+                  "which is its root, labels agree with ascent chains, the masked arg-max the code uses for idx is the "
+                  "root; local_maxima depth is positive exactly at local maxima; threshold_bifurcations labels exactly "
+                  "the above-threshold vertices for every tie order; diffusion = n-fold linear application of the "
+                  "adjacency = dense matrix product; a Field history is the composition of the modelled operators and "
+                  "leaves the graph alone; check <=> every vertex reaches a root within V steps, no cycles, the patched "
+                  "constructor guard; children/leaf/root/descendant consistency; depth strict at any fixed point of the "
+                  "sweep; reordering conjugates every iterate of the parent map and keeps a forest a forest; after ANY "
+                  "history of public Forest methods the object is coherent (edges and children cache describe the "
+                  "current parents), is a forest, and every query answers for the current parents; the unpatched "
+                  "reorder (stale cache) and the unpatched range guard are shown to break this; WeightedForest height "
+                  "monotone along ancestry, cuts keep whole subtrees. Partial / by correspondence and oracle only: the "
+                  "value of a positive local_maxima depth, the cc numbering of basins against lil_cc, the parent "
+                  "hierarchy of threshold_bifurcations vs superlevel-set components, subfield renumbering in "
+                  "watershedC, upward propagation rule, convergence of depth_from_leaves within V sweeps, "
+                  "subforest never refused on a forest, split/partition label values, geodesic_kmeans/ward values")
+    finding_keys = {"forest-parent-range": "Forest/WeightedForest constructor accepts parent entries equal to V or "
+                                           "negative (NumPy wrap-around): rootless or unusable objects"}
 
     # ------------------------------------------------------------------
     def generate(self, rng, tier):
         quick = tier == "quick"
         n_m, n_d, n_t, n_f = (260, 80, 260, 500) if quick else (3000, 800, 3000, 4000)
+        n_h = 500 if quick else 6000
+        n_fh = 300 if quick else 4000
         cases = []
         for _ in range(n_m):
             V = rand_V(rng)
@@ -255,6 +304,22 @@ class C12(PropertyCheck):
             else:
                 th = vals[-1] + 1.0                        # nothing above threshold
             cases.append({"kind": "thresh", "V": V, "edges": E, "field": F, "refdim": refdim, "th": th})
+        # operation histories on one Field object
+        for _ in range(n_fh):
+            V = rng.choice([1, 2, 3, 3, 4, 4, 5, 6, 7, 8])
+            E, gk = gen_graph(rng, V)
+            dim = rng.choice([1, 1, 2, 3])
+            F, fs = gen_field(rng, V, dim)
+            dt = rng.choice(["float64"] * 5 + ["float32", "int64", "int32"])
+            if dt.startswith("int"):
+                F = [[float(int(x * 4)) for x in row] for row in F]
+            cases.append({"kind": "fieldhist", "V": V, "edges": E, "field": F, "dtype": dt,
+                          "ctor": rng.choice(["Field", "Field", "graph", "coo"]),
+                          "steps": c12_fieldhist.gen_steps(rng)})
+        # operation histories on one Forest object
+        for _ in range(n_h):
+            cases.append(c12_hist.gen_case(rng))
+        # one-shot forests (valid, cyclic, malformed); after the histories on purpose
         for _ in range(n_f):
             V = rng.choice([1, 2, 3, 4, 5, 6, 7, 8, 9, 12])
             p = gen_parents(rng, V)
@@ -268,6 +333,8 @@ class C12(PropertyCheck):
                 c = {"kind": "forest", "V": V, "parents": list(p)}
                 c.update(forest_extras(rng, V))
                 cases.append(c)
+                if _is_forest(p):      # every forest on <= vmax nodes starts a short history
+                    cases.append(c12_hist.gen_case(rng, parents=p, nmut=1))
         if quick:
             for V in (5, 6):
                 for _ in range(350):
@@ -467,6 +534,9 @@ class C12(PropertyCheck):
                 fails.append(f"local_maxima disagrees with the direct definition (hop distance to a strictly "
                              f"higher vertex): got {list(map(int, depth))} expected {want}")
             ok2, im = call("get_local_maxima", refdim, **kw)
+            lines.append(f"glmax {refdim} {fr(th_eff)} {g} {f} 0")
+            impl.append(("txt", " ".join(str(int(x)) for x in im[0]) + " | " + " ".join(str(int(x)) for x in im[1]))
+                        if ok2 else ("err", im))
             if ok2 and (list(im[0]) != [v for v in range(V) if depth[v] > 0]
                         or list(im[1]) != [int(depth[v]) for v in range(V) if depth[v] > 0]):
                 fails.append("get_local_maxima inconsistent with local_maxima")
@@ -504,14 +574,28 @@ class C12(PropertyCheck):
                         break
         else:
             impl.append(("err", ws))
-        # ---------------- bifurcations (oracle only, symmetric graphs)
-        if sym:
-            ok, tb = call("threshold_bifurcations", refdim, **kw)
-            if ok:
+        # the same call against the model that computes idx as the code does (masked arg-max per basin)
+        lines.append(f"wsc {refdim} {fr(th_eff)} {g} {f} 0")
+        impl.append(impl[-1])
+        # ---------------- bifurcations: model on every graph, superlevel-set oracle on symmetric ones
+        ok, tb = call("threshold_bifurcations", refdim, **kw)
+        if valid.any():     # the order NumPy gives on the thresholded column (same call, same data)
+            order = np.argsort(- col[valid].copy())
+        else:
+            order = np.array([], dtype=int)
+        lines.append(f"bif {refdim} {fr(th_eff)} {g} {f} {len(order)} " + " ".join(str(int(x)) for x in order))
+        if ok:
+            impl.append(("txt", " | ".join(" ".join(str(int(x)) for x in part) for part in tb)))
+            if sym:
                 msg = self._check_bifurcations(V, nbv, col, valid, tb)
                 if msg:
                     fails.append(msg)
                 tags.append("bifurcations")
+            elif any((int(tb[2][v]) >= 0) != bool(valid[v]) for v in range(V)):
+                fails.append(f"threshold_bifurcations does not label exactly the above-threshold vertices: "
+                             f"{[int(x) for x in tb[2]]}")
+        else:
+            impl.append(("err", tb))
         nontrivial = bool(c["edges"]) and len(set(col.tolist())) > 1
         return {"lines": lines, "impl": impl, "oracle": fails[0] if fails else None,
                 "nontrivial": nontrivial, "tags": tags, "mutated": None}
@@ -573,6 +657,12 @@ class C12(PropertyCheck):
                         f"connected components of the superlevel set (label={label}, parent={parent})")
         return None
 
+    def _fhist(self, c):
+        return c12_hist.run_history(c)
+
+    def _fieldhist(self, c):
+        return c12_fieldhist.run_history(c)
+
     # ---- forests ----
     def _forest(self, c):
         from nipy.algorithms.graph.forest import Forest
@@ -600,8 +690,16 @@ class C12(PropertyCheck):
                                                    else "refused an acyclic parent array"))
         if not inrange:
             tags.append("malformed")
-            if built and max(ps) > V:
-                fails.append(f"Forest accepted parents {ps} beyond the vertex range")
+            if built:
+                fails.append(f"Forest({V}, {ps}) accepted a parent array with entries outside 0..{V - 1}: "
+                             f"isroot() = {[bool(x) for x in F.isroot()]}")
+            elif len(ps) == V:
+                from nipy.algorithms.clustering.hierarchical_clustering import WeightedForest
+                try:
+                    WeightedForest(V, parr.copy(), np.zeros(V))
+                    fails.append(f"WeightedForest({V}, {ps}) accepted a parent array with entries outside 0..{V - 1}")
+                except (ValueError, IndexError):
+                    pass
         if not built or not inrange:
             tags.append("refused" if not built else "built")
             return {"lines": lines, "impl": impl, "oracle": fails[0] if fails else None,
@@ -709,6 +807,7 @@ class C12(PropertyCheck):
                     fails.append(f"propagate_upward: node {v} has label {out[v]}, documented rule gives {want} "
                                  f"(parents {ps}, labels {c['label']})")
                     break
+            self._weighted(c, ps, parr, kids, hts, lines, impl, fails, tags)
         except Exception as e:   # noqa: BLE001
             fails.append(f"Forest query raised {type(e).__name__}: {e} on parents {ps}")
             while len(impl) < len(lines):
@@ -716,9 +815,88 @@ class C12(PropertyCheck):
         return {"lines": lines, "impl": impl, "oracle": fails[0] if fails else None,
                 "nontrivial": any(ps[v] != v for v in range(V)), "tags": tags, "mutated": snap.changed()}
 
+    # ---- WeightedForest (hierarchical_clustering.py): a Forest with heights ----
+    @staticmethod
+    def _weighted(c, ps, parr, kids, hts, lines, impl, fails, tags):
+        from nipy.algorithms.clustering.hierarchical_clustering import WeightedForest
+        V = len(ps)
+        mode = c.get("hmode", "depth")
+        raw = (c.get("hraw") or [0.0] * V)[:V] + [0.0] * V
+        hs = {"depth": [float(x) for x in hts], "half": [float(x // 2) for x in hts],
+              "const": [1.0] * V}.get(mode, raw[:V])
+        th, k = c.get("wth", 1.0), c.get("wk", 2)
+        W = WeightedForest(V, parr.copy(), np.array(hs))
+        tags.append("wf-height=" + mode)
+        if list(W.get_height()) != hs:
+            fails.append("WeightedForest.get_height() is not the height given to the constructor")
+        W.set_height(np.array(hs[::-1]))
+        if list(W.get_height()) != hs[::-1]:
+            fails.append("WeightedForest.set_height/get_height do not round-trip")
+        W.set_height(np.array(hs))
+        try:
+            W.set_height(np.zeros(V + 1))
+            fails.append("WeightedForest.set_height accepted a height array of the wrong size")
+        except ValueError:
+            pass
+        compat = bool(W.check_compatible_height())
+        if compat != all(hs[ps[v]] >= hs[v] for v in range(V)):
+            fails.append(f"check_compatible_height() = {compat} on parents {ps} heights {hs}")
+
+        def leaf_groups(valid):
+            """labels (numbered by smallest vertex of the tree) of the leaves of the cut forest"""
+            keep = [v for v in range(V) if valid[v]]
+            par = {v: (ps[v] if valid[ps[v]] else v) for v in keep}
+
+            def top(v):
+                while par[v] != v:
+                    v = par[v]
+                return v
+            tops = []
+            for v in keep:
+                if top(v) not in tops:
+                    tops.append(top(v))
+            has_kid = {par[v] for v in keep if par[v] != v}
+            return [tops.index(top(v)) for v in keep if v not in has_kid]
+
+        def obs(fn):
+            try:
+                return "[" + " ".join(str(int(x)) for x in fn()) + "]", None
+            except ValueError as e:
+                return "error:valueError", e
+        ptxt, perr = obs(lambda: W.partition(th))
+        valid = [hs[v] < th for v in range(V)]
+        if perr is None:
+            want = "[" + " ".join(map(str, leaf_groups(valid))) + "]"
+            if ptxt != want:
+                fails.append(f"partition({th}) = {ptxt}; the leaves of the forest cut below {th} fall in trees {want} "
+                             f"(parents {ps} heights {hs})")
+        elif any(valid):
+            fails.append(f"partition({th}) raised {perr} although nodes lie below the threshold")
+        stxt, serr = obs(lambda: W.split(k))
+        if serr is not None:
+            fails.append(f"split({k}) raised {serr} (parents {ps} heights {hs})")
+        else:
+            got = [int(x) for x in stxt[1:-1].split()]
+            nb = len({v for v in range(V) if ps[v] == v})
+            nleaf = sum(1 for v in range(V) if not kids[v])
+            if k <= nb and got != leaf_groups([True] * V):
+                fails.append(f"split({k}) with {nb} trees does not return the tree of every leaf: {got}")
+            if len(got) == 0 or sorted(set(got)) != list(range(max(got) + 1)):
+                fails.append(f"split({k}) labels {got} are not 0..m")
+            if compat and mode == "depth" and nb <= k and all(len(x) in (0, 2) for x in kids):
+                # a binary dendrogram with strictly increasing heights: exactly min(k, #leaves) groups
+                if len(set(got)) != min(k, nleaf):
+                    fails.append(f"split({k}) of a binary dendrogram gives {len(set(got))} groups: {got} "
+                                 f"(parents {ps} heights {hs})")
+        sub = [[int(x) for x in l] for l in W.list_of_subtrees()]
+        lines.append(f"wf {V} {frs(ps)} {V} {frs(hs)} {fr(th)} {k}")
+        impl.append(("txt", f"{int(compat)} | {ptxt} | {stxt} | " + " ; ".join(" ".join(map(str, l)) for l in sub)))
+
     # ------------------------------------------------------------------
     def compare(self, case, impl_obs, model_out):
         kind, val = impl_obs[0], impl_obs[1]
+        if kind == "hist":
+            return c12_hist.compare_hist(val, model_out)
         if kind == "err":
             return None if model_out == val else f"impl={val} model={model_out}"
         if kind == "txt":
@@ -759,6 +937,10 @@ class C12(PropertyCheck):
             if case.get("n", 1) > 1:
                 c = dict(case); c["n"] = case["n"] - 1
                 yield c
+        elif k == "fhist":
+            yield from c12_hist.shrink_hist(case)
+        elif k == "fieldhist":
+            yield from c12_fieldhist.shrink_hist(case)
         elif k == "forest":
             V, ps = case["V"], case["parents"]
             if len(ps) == V and V > 1:
@@ -772,6 +954,12 @@ class C12(PropertyCheck):
                         yield c
 
     def classify(self, case, failure):
+        # Forest / WeightedForest constructor: `parents.max() > V` is the only range guard in the unpatched
+        # code (proposed_fixes/C12-forest-parent-range.patch); the key is only used if the coordinator lists it
+        if case.get("kind") == "forest":
+            ps, V = case.get("parents", []), case.get("V", 0)
+            if len(ps) == V and any(not (0 <= x < V) for x in ps):
+                return "forest-parent-range"
         return None
 
 
